@@ -126,9 +126,9 @@ Section Total.
     apply bind_total; [apply IHl; intros y Hy; apply H; right; exact Hy | intros ?; exact I].
   Qed.
 
-  Lemma view_gen_total {T : Type} (B : builders T) :
+  Lemma view_gen_total {T : Type} (handlers : str -> bool) (B : builders T) :
     (forall j i, no_panic (b_ascii T B j i)) ->
-    forall fuel j, (jdepth j < fuel)%nat -> no_panic (view_gen orc frgba B fuel j).
+    forall fuel j, (jdepth j < fuel)%nat -> no_panic (view_gen orc frgba handlers B fuel j).
   Proof.
     intros HB. induction fuel as [|f IH]; intros j Hd; [lia|].
     cbn [view_gen].
@@ -171,11 +171,12 @@ Section Total.
     { destruct (jget j (s2l "view")) as [v|] eqn:E; [|exact I].
       destruct (jget j (s2l "tag")); [|exact I].
       apply bind_total; [|intros ?; exact I]. apply IH. pose proof (jget_depth _ _ _ E). lia. }
-    destruct (str_eqb t (s2l "ref")); [apply bind_total; [apply of_bool_total | intros ?; exact I] | exact I].
+    destruct (str_eqb t (s2l "ref")); [apply bind_total; [apply of_bool_total | intros ?; exact I]|].
+    destruct (handlers t); exact I.
   Qed.
 
-  Theorem view_gen_kind_total {T : Type} (B : builders T) (k : vkind) (j : json) :
-    (forall j i, no_panic (b_ascii T B j i)) -> no_panic (view_gen_kind orc frgba B k j).
+  Theorem view_gen_kind_total {T : Type} (handlers : str -> bool) (B : builders T) (k : vkind) (j : json) :
+    (forall j i, no_panic (b_ascii T B j i)) -> no_panic (view_gen_kind orc frgba handlers B k j).
   Proof.
     intros HB. destruct k; cbn [view_gen_kind].
     - apply view_gen_total; [exact HB | lia].
@@ -184,7 +185,7 @@ Section Total.
   Qed.
 
   (* every JSON value, as a view tree, as a text, as a glyph *)
-  Theorem view_de_kind_total (k : vkind) (j : json) : no_panic (view_de_kind orc frgba k j).
+  Theorem view_de_kind_total (handlers : str -> bool) (k : vkind) (j : json) : no_panic (view_de_kind orc frgba handlers k j).
   Proof. apply view_gen_kind_total. intros ? ?. exact I. Qed.
 
 End Total.
